@@ -145,6 +145,7 @@ pub fn show_acts(a: &[Act]) -> String {
             Act::Loan(n, cb) => format!("loan:{n}:{}", show_acts(cb)),
             Act::Foreign(0, a, b) => format!("xcb:{a}:{b}"),
             Act::Foreign(1, _, _) => "xcfg".into(),
+            Act::Foreign(3, a, b) => format!("xnx:{a}:{b}"),
             Act::Foreign(_, _, _) => "xwd".into(),
         })
         .collect();
@@ -189,7 +190,7 @@ fn parse_list(b: &[char], i: &mut usize) -> Option<Vec<Act>> {
             "fail" => Act::Fail,
             "xcfg" => Act::Foreign(1, 0, 0),
             "xwd" => Act::Foreign(2, 0, 0),
-            "xcb" => {
+            "xcb" | "xnx" => {
                 if b.get(*i) != Some(&':') {
                     return None;
                 }
@@ -199,7 +200,7 @@ fn parse_list(b: &[char], i: &mut usize) -> Option<Vec<Act>> {
                     return None;
                 }
                 *i += 1;
-                Act::Foreign(0, a, parse_num(b, i)?)
+                Act::Foreign(if word == "xcb" { 0 } else { 3 }, a, parse_num(b, i)?)
             }
             "pay" | "dep" | "wd" => {
                 if b.get(*i) != Some(&':') {
@@ -720,6 +721,21 @@ impl World {
                 }
                 Act::Fail => out.push(self.fail_msg()),
                 Act::Loan(n, cb) => out.push(self.loan_msg(*n, cb)),
+                Act::Foreign(3, a, b) => {
+                    // the router's NextLoan sent by the borrower contract, which names ITSELF as the source vault of
+                    // the registered asset; the payload would have the router pay `a` to account `b`
+                    let to = self.accts[(*b as usize).min(2)].clone();
+                    let msg = to_json_binary(&rmsg::ExecuteMsg::NextLoan {
+                        initiator: self.accts[3].clone(),
+                        source_vault: self.accts[3].to_string(),
+                        source_vault_asset_info: self.asset_info(),
+                        payload: vec![self.pay_msg(&to, *a)],
+                        to_loan: vec![],
+                        loaned_assets: vec![],
+                    })
+                    .unwrap();
+                    out.push(WasmMsg::Execute { contract_addr: self.router.to_string(), msg, funds: vec![] }.into());
+                }
                 Act::Foreign(k, a, b) => {
                     let msg = match k {
                         0 => to_json_binary(&vmsg::ExecuteMsg::Callback(vmsg::CallbackMsg::AfterTrade { old_balance: (*a).into(), loan_amount: (*b).into() })),
@@ -1094,7 +1110,8 @@ impl VaultEngine {
             }
             "xnext" => {
                 // a stranger calls the router's NextLoan directly, naming the real vault as source
-                if ws.len() != 4 {
+                // (a 5th token `self`: the stranger names ITSELF as the source vault of the registered asset)
+                if ws.len() != 4 && !(ws.len() == 5 && ws[4] == "self") {
                     return Err(());
                 }
                 let i: usize = ws[1].parse().map_err(|_| ())?;
@@ -1105,7 +1122,7 @@ impl VaultEngine {
                 }
                 let msg = rmsg::ExecuteMsg::NextLoan {
                     initiator: w.accts[i].clone(),
-                    source_vault: w.vault.to_string(),
+                    source_vault: if ws.len() == 5 { w.accts[i].to_string() } else { w.vault.to_string() },
                     source_vault_asset_info: w.asset_info(),
                     payload: w.racts_to_msgs(&pl),
                     to_loan: vec![],
@@ -1765,12 +1782,12 @@ impl VaultEngine {
                 0 | 1 => {
                     // NextLoan by a stranger: empty payload and a loan size whose payback the router can cover
                     let a = if have > 1 && rng.chance(3, 4) { rng.u128() % (have / 2) + 1 } else { 0 };
-                    format!("xnext {who} {a} []")
+                    format!("xnext {who} {a} []{}", if rng.chance(1, 3) { " self" } else { "" })
                 }
                 2 => {
                     let k = if have > 0 { rng.u128() % have + 1 } else { 1 };
                     let a = if rng.chance(1, 2) { 0 } else { have.saturating_sub(k) / 2 };
-                    format!("xnext {who} {a} {}", show_racts(&[RAct::Out(rng.below(3) as usize, k)]))
+                    format!("xnext {who} {a} {}{}", show_racts(&[RAct::Out(rng.below(3) as usize, k)]), if rng.chance(1, 3) { " self" } else { "" })
                 }
                 3 | 4 => {
                     let a = if have > 1 && rng.chance(3, 4) { rng.u128() % (have / 2) + 1 } else { 0 };
@@ -1867,6 +1884,7 @@ fn gen_cb(rng: &mut Rng, o: &Obs, n: u128, pb: u128, depth: u32) -> Vec<Act> {
                         }
                     }
                     2 => acts.push(Act::Foreign(1, 0, 0)),
+                    _ if rng.chance(1, 2) => acts.push(Act::Foreign(3, (o.ab[ROUTER].max(n) / (1 + rng.below(4) as u128)).max(1), rng.below(3) as u128)),
                     _ => acts.push(Act::Foreign(2, 0, 0)),
                 }
             }
